@@ -22,11 +22,12 @@ def run(path):
         return 2
     # in-process engine
     if (prop in ("C11", "C12", "C18")) or (prop == "C15" and kind == "compile") or (prop == "C04" and kind == "runtime") or (prop == "C16" and kind == "history"):
-        if not ws.build_tools(("front",)):
+        tool = "frontnc" if rec.get("feature_colored") is False else "front"
+        if not ws.build_tools((tool,)):
             return 2
         wd = os.path.join(ws.WORK, "replaytmp")
         os.makedirs(wd, exist_ok=True)
-        p = subprocess.run([ws.tool("front"), "replay", path, "--workdir", wd], stdout=subprocess.PIPE, stderr=subprocess.PIPE, text=True, timeout=1800)
+        p = subprocess.run([ws.tool(tool), "replay", path, "--workdir", wd], stdout=subprocess.PIPE, stderr=subprocess.PIPE, text=True, timeout=1800)
         shutil.rmtree(wd, ignore_errors=True)
         if p.returncode == 1:
             print("VIOLATION property=%s replay=%s" % (prop, path))
